@@ -828,6 +828,16 @@ def evaluate_quantified_formula(
     # quantifier, it results in "unknown" only if no instantiation matches the
     # quantifier.
 
+    def might_contain_further_matches(leaf: DerivationTree) -> bool:
+        # An open leaf of the quantified type itself is a match already (and thus not
+        # reported by `quantified_formula_might_match`); if the nonterminal is
+        # recursive, expanding the leaf can still produce further matches below it.
+        return (
+            leaf.value == formula.bound_variable.n_type
+            and in_inst.find_node(leaf) is not None
+            and graph.reachable(leaf.value, leaf.value)
+        )
+
     has_potential_matches = any(
         quantified_formula_might_match(
             (
@@ -840,7 +850,8 @@ def evaluate_quantified_formula(
             grammar,
             graph.reachable,
         )
-        for path_to_nonterminal, _ in reference_tree.open_leaves()
+        or might_contain_further_matches(leaf)
+        for path_to_nonterminal, leaf in reference_tree.open_leaves()
     )
 
     if isinstance(formula, ForallFormula):
